@@ -5,7 +5,7 @@ From Coq.Strings Require Import Byte.
 Import ListNotations.
 From Flocq Require Import IEEE754.BinarySingleNaN.
 Require Import MS.Base.GoInt MS.Base.Res MS.Base.Hex MS.Base.Bytes MS.Base.F32 MS.Base.F64 MS.Generated.Src_io
-               MS.Model.Rows MS.Model.Coerce MS.Proofs.Coerce_facts MS.Proofs.CoerceF32_facts.
+               MS.Model.Rows MS.Model.Coerce MS.Proofs.Coerce_facts MS.Proofs.CoerceF32_facts MS.Proofs.CoerceOrder_facts.
 Local Open Scope Z_scope.
 
 (* ======================================================== (a) rejection and "changes no bucket" *)
@@ -128,43 +128,34 @@ Example C14b_nonvacuous : Z.abs (- 9007199254740991) < 2 ^ 53 /\ in_ity I64 (- 9
   /\ f32_bits (f32_of_Z (- 9007199254740991)) = 0xda000000.
 Proof. vm_compute. repeat split; discriminate. Qed.
 
-(* ======================================================== (c) columns match by name, not by position *)
+(* ======================================================== (c) columns match by name *)
 
-(** Full statement: a one-bucket request whose column NAMES (and types) are the bucket's, in any order, is
-    stored per name: the stored row is the epoch followed by the values in the BUCKET's column order. *)
-Definition row_by_name (sh : list shape) (cols : list col) : list byte :=
-  flat_map (fun sc => match find (fun c => bytes_eqb (cname c) (fst sc)) cols with
-                      | Some c => cdata c | None => [] end) sh.
-
-Definition C14c_full : Prop := forall key sh cols,
+(** (since "fix: WriteCSM lays the rows out in the bucket's column order"; the former refutation C14c_refuted -
+    columns matched by name but stored by position - is gone)
+    A one-row, one-bucket request whose columns are the bucket's columns (same names and types) in ANY order is
+    accepted and stored per column name: the stored row is the bucket's columns' values in the BUCKET's order.
+    Hypotheses: distinct bucket column names, Epoch (int64) first in the bucket, no other column whose name
+    case-insensitively equals "epoch" (C29's finding), every column holds exactly one value. *)
+Theorem C14_stored_by_name : forall key sh cols,
   Permutation (cs_shapes cols) sh -> NoDup (map fst sh) -> hd_error sh = Some (epoch_name, ET_INT64) ->
-  Forall (fun c => List.length (cdata c) = tsize (ctype c)) cols ->                  (* one row *)
+  (forall s0, In s0 (tl sh) -> is_epoch_name (fst s0) = false) ->
+  Forall (fun c => List.length (cdata c) = tsize (ctype c)) cols ->
   let '(st', code) := write_csm (mkS [mkB key sh []] []) [mkR key cols] in
   code = 0%nat /\ stored st' key = [row_by_name sh cols].
+Proof. exact stored_by_name. Qed.
+Print Assumptions C14_stored_by_name.
 
-(** bucket (Epoch, x float32, y int32); request (Epoch, y = 8, x = 2.5f): accepted, and the row is stored
-    in the REQUEST's order, so a reader finds y's bits in x *)
+(** Non-vacuity and regression of the former witness: bucket (Epoch, x float32, y int32); request (Epoch, y = 8, x = 2.5f)
+    meets the hypotheses; the stored row is epoch, x, y. *)
 Definition C14c_sh : list shape := [(epoch_name, ET_INT64); (s "x", ET_FLOAT32); (s "y", ET_INT32)].
 Definition C14c_cols : list col :=
   [epoch_col 60; mkcol (s "y") ET_INT32 (i32 8); mkcol (s "x") ET_FLOAT32 (le_bytes 4 0x40200000)].
 
-Theorem C14c_refuted : ~ C14c_full.
+Example C14c_nonvacuous :
+  Permutation (cs_shapes C14c_cols) C14c_sh /\ NoDup (map fst C14c_sh)
+  /\ stored (fst (write_csm (mkS [mkB (s "A") C14c_sh []] []) [mkR (s "A") C14c_cols])) (s "A")
+     = [i64 60 ++ le_bytes 4 0x40200000 ++ i32 8].
 Proof.
-  intros H. specialize (H (s "A") C14c_sh C14c_cols).
-  assert (P : Permutation (cs_shapes C14c_cols) C14c_sh).
-  { apply perm_skip. apply perm_swap. }
-  specialize (H P).
-  assert (N : NoDup (map fst C14c_sh)).
-  { repeat constructor; vm_compute; intuition discriminate. }
-  specialize (H N eq_refl).
-  assert (F : Forall (fun c => List.length (cdata c) = tsize (ctype c)) C14c_cols) by (repeat constructor).
-  specialize (H F). vm_compute in H. destruct H as [_ H]. discriminate H.
+  split; [apply perm_skip, perm_swap|]. split; [repeat constructor; vm_compute; intuition discriminate|].
+  vm_compute. reflexivity.
 Qed.
-Print Assumptions C14c_refuted.
-
-(** in the bucket's own column order the same request is stored correctly *)
-Example C14c_in_order :
-  let cols := [epoch_col 60; mkcol (s "x") ET_FLOAT32 (le_bytes 4 0x40200000); mkcol (s "y") ET_INT32 (i32 8)] in
-  let '(st', code) := write_csm (mkS [mkB (s "A") C14c_sh []] []) [mkR (s "A") cols] in
-  code = 0%nat /\ stored st' (s "A") = [row_by_name C14c_sh cols].
-Proof. vm_compute. split; reflexivity. Qed.
